@@ -64,7 +64,7 @@ class FitDistClass(Opaque):
 FD_CASES = [dict(kind=k) for k in ("none", "ok", "wrong_length", "entry_none", "no_method", "no_weights")]
 
 
-@contract(GHM + "._check_and_fill_fit_desc", ["C09", "C18"], FD_CASES, name="ghm.check_fit_desc")
+@contract(GHM + "._check_and_fill_fit_desc", ["C09", "C18", "C12", "C13"], FD_CASES, name="ghm.check_fit_desc")
 class CheckFitDesc(Contract):
     """fit descriptions: one per dimension (else ValueError), a missing 'method' is rejected, missing entries /
     weights are filled with the defaults ('mle', None) for THAT dimension only"""
@@ -127,7 +127,7 @@ def _fit_cases(dims=(2, 3)):
     return out
 
 
-@contract(GHM + ".fit", ["C09", "C18"], _fit_cases(), name="ghm.fit", thorough_cases=_fit_cases((4,)))
+@contract(GHM + ".fit", ["C09", "C18", "C12", "C13", "C11"], _fit_cases(), name="ghm.fit", thorough_cases=_fit_cases((4,)))
 class GhmFit(Contract):
     """fit: dimension i is fitted with ITS OWN method / weights; an unconditional variable to column i of the data;
     a conditional one to the per-interval data obtained by slicing the declared conditioning column"""
@@ -222,7 +222,7 @@ class SlicerRec(Opaque):
         raise PyRaise("AttributeError", name)
 
 
-@contract(GHM + "._split_in_intervals", ["C09", "C19"], [dict(nd=nd, dist_idx=d, cond=c, m=m) for nd in (2, 3) for d in range(1, nd) for c in range(d) for m in (1, 3)], name="ghm.split_in_intervals")
+@contract(GHM + "._split_in_intervals", ["C09", "C19", "C12", "C10"], [dict(nd=nd, dist_idx=d, cond=c, m=m) for nd in (2, 3) for d in range(1, nd) for c in range(d) for m in (1, 3)], name="ghm.split_in_intervals")
 class SplitInIntervals(Contract):
     """the slicer of the CONDITIONING dimension slices the conditioning column; interval j's data are the
     observations of variable dist_idx at exactly the input positions its mask marks; nothing is cached on the model"""
@@ -273,7 +273,7 @@ class SplitInIntervals(Contract):
         cx.oblige("frame.data", self.data.buf.writes == 0, "frame")
 
 
-@contract(CD + ".fit", ["C09", "C19", "C12"], [dict(m=m, deps=dp) for m in (1, 3) for dp in (("alpha",), ("alpha", "beta"))], name="cond.fit",
+@contract(CD + ".fit", ["C09", "C19", "C12", "C13", "C11"], [dict(m=m, deps=dp) for m in (1, 3) for dp in (("alpha",), ("alpha", "beta"))], name="cond.fit",
           thorough_cases=[dict(m=m, deps=dp) for m in (2, 5, 8) for dp in (("alpha",), ("beta",), ("alpha", "beta"))])
 class CondFit(Contract):
     """every interval is fitted by a stand-alone fit of a COPY of the template to exactly that interval's data with
@@ -319,7 +319,11 @@ class CondFit(Contract):
             return
         for j, c in enumerate(copies):
             ok = len(c.fits) == 1
-            cx.oblige(f"post.per_interval_fit.{j}", ok and same_data(cx, c.fits[0][0][0], self.data[j]) and c.fits[0][0][1] == "some_method" and c.fits[0][0][2] == "some_weights", "post",
+            fa = (list(c.fits[0][0]) if ok else []) + [None, None, None]
+            fk = c.fits[0][1] if ok else {}
+            f_method = fa[1] if fa[1] is not None else fk.get("method")
+            f_weights = fa[2] if fa[2] is not None else fk.get("weights")
+            cx.oblige(f"post.per_interval_fit.{j}", ok and fa[0] is not None and same_data(cx, fa[0], self.data[j]) and f_method == "some_method" and f_weights == "some_weights", "post",
                       "copy j fitted to exactly the observations of interval j with the requested method and weights")
         dpi = self.obj.fields.get("distributions_per_interval")
         cx.oblige("post.distributions_per_interval", isinstance(dpi, list) and len(dpi) == m and all(a is b for a, b in zip(dpi, copies)), "post")
